@@ -9,3 +9,5 @@ import Woodpile.Model.IovecOps
 import Woodpile.Proofs.IovecOwn
 import Woodpile.Props.C05
 import Woodpile.Props.C10
+import Woodpile.Proofs.IovecFrame
+import Woodpile.Props.C20
